@@ -53,6 +53,8 @@ pub enum QuantCall {
 pub enum RibbonCall {
     Poll(f32),
     PollN(f32, u16),
+    /// n samples exactly `ulps` f32 steps away from the in-range boundary 1 - dropper/(dropper+softpot)
+    PollNearBoundary(i8, u16),
     Value,
     Pressing,
     JustPressed,
@@ -236,6 +238,16 @@ pub fn run_case(case: &ApiCase, stats: &mut Stats) -> Result<CaseInfo, Failure> 
                         let v = v.clamp(0.0, 1.0);
                         ext += (v == 0.0 || v == 1.0) as u32;
                         guard("ribbon", i, what, || r.poll(v))?
+                    }
+                    RibbonCall::PollNearBoundary(ulps, n) => {
+                        let boundary = 1.0f32 - (cfg.dr / (cfg.dr + cfg.sp));
+                        let v = f32::from_bits((boundary.to_bits() as i64 + *ulps as i64) as u32).clamp(0.0, 1.0);
+                        ext += 1;
+                        guard("ribbon", i, format!("poll({:e}) x {} ({} ulps from the in-range boundary)", v, n, ulps), || {
+                            for _ in 0..*n {
+                                r.poll(v)
+                            }
+                        })?
                     }
                     RibbonCall::PollN(v, n) => {
                         let v = v.clamp(0.0, 1.0);
